@@ -25,6 +25,9 @@ pub struct Case {
     /// how many rotation attempts in a row hit the obstruction
     pub persist: usize,
     pub continuation: Vec<(usize, u32)>,
+    /// the active file lives on another filesystem than the archives (rename fails with EXDEV, copy fallback)
+    #[serde(default)]
+    pub cross_device: bool,
 }
 
 #[derive(Serialize, Deserialize, Debug, Clone, PartialEq)]
@@ -36,6 +39,8 @@ pub enum Fault {
     Crash { r: usize, s: usize },
     /// hook-free: a non-empty directory sits at archive offset `off` while rotation `r` runs
     Obstacle { r: usize, off: u32 },
+    /// hook-free, directory-component patterns: the directory of archive offset `off` is a dangling symlink
+    DanglingDir { r: usize, off: u32 },
 }
 
 /// One faulted execution = what a replay file holds.
@@ -52,11 +57,11 @@ pub fn strategy() -> impl Strategy<Value = Case> {
         2 => prop::collection::vec(prop::bool::weighted(0.35), 8..=40).prop_map(|s| TrigSpec::Scripted(s, false)),
         2 => (1u32..=3).prop_map(|n| TrigSpec::Time(format!("{} seconds", n), false)),
     ];
-    let roller = (prop::sample::select(vec![0u32, 1, 7]), 1u32..=4, prop::sample::select(vec!["a.{}.log", "arch/{}/a.log", "a.{}.log.gz"]))
+    let roller = (prop::sample::select(vec![0u32, 1, 7]), 1u32..=4, prop::sample::select(vec!["a.{}.log", "arch/{}/a.log", "a.{}.log.gz", "arch/{}/a.{}.log"]))
         .prop_map(|(base, count, p)| RollSpec::Fixed { base, count, pattern: p.to_string() });
     let step = || (prop_oneof![4 => 0usize..100, 1 => 1000usize..1040], prop_oneof![3 => Just(0u32), 2 => 1u32..4]);
-    (trigger, roller, prop::bool::weighted(0.6), prop::collection::vec(step(), 5..=40), 1usize..=3, prop::collection::vec(step(), 3..=15))
-        .prop_map(|(trigger, roller, append_mode, history, persist, continuation)| Case { trigger, roller, append_mode, history, persist, continuation })
+    (trigger, roller, prop::bool::weighted(0.6), prop::collection::vec(step(), 5..=40), 1usize..=3, prop::collection::vec(step(), 3..=15), prop::bool::weighted(0.25))
+        .prop_map(|(trigger, roller, append_mode, history, persist, continuation, cross_device)| Case { trigger, roller, append_mode, history, persist, continuation, cross_device })
 }
 
 #[derive(Default)]
@@ -70,6 +75,8 @@ struct HookState {
     failures_left: usize,
     dir: PathBuf,
     image_dir: PathBuf,
+    active: PathBuf,
+    image_active: PathBuf,
     image_taken: bool,
     /// (rotation, step) pairs seen (dry run)
     seen: Vec<(usize, usize)>,
@@ -85,13 +92,23 @@ struct Outcome {
 
 const ACTIVE: &str = "active.log";
 
+/// Where the active file of the appender working in `dir` lives.
+fn active_path(dir: &Path, cross_device: bool) -> PathBuf {
+    if cross_device {
+        if let Some(alt) = other_fs_dir(dir) {
+            return alt.join(ACTIVE);
+        }
+    }
+    dir.join(ACTIVE)
+}
+
 fn build(dir: &Path, case: &Case) -> Result<RollingFileAppender, Failure> {
     let policy = make_policy(dir, &case.trigger, &case.roller).map_err(|e| Failure { sig: "C08:build".into(), msg: e.to_string() })?;
-    build_appender(&dir.join(ACTIVE), case.append_mode, &None, policy).map_err(|e| Failure { sig: "C08:build".into(), msg: e.to_string() })
+    build_appender(&active_path(dir, case.cross_device), case.append_mode, &None, policy).map_err(|e| Failure { sig: "C08:build".into(), msg: e.to_string() })
 }
 
 /// Decoded contents of all managed files (archives inside the window + active path) by name.
-fn managed(dir: &Path, roller: &RollSpec) -> Vec<(String, Vec<u8>)> {
+fn managed(dir: &Path, roller: &RollSpec, active: &Path) -> Vec<(String, Vec<u8>)> {
     let mut v = vec![];
     for off in 0..window_count(roller) {
         let p = archive_path(dir, roller, off).unwrap();
@@ -104,7 +121,7 @@ fn managed(dir: &Path, roller: &RollSpec) -> Vec<(String, Vec<u8>)> {
             }
         }
     }
-    if let Ok(b) = std::fs::read(dir.join(ACTIVE)) {
+    if let Ok(b) = std::fs::read(active) {
         v.push(("active".to_string(), b));
     }
     v
@@ -112,8 +129,8 @@ fn managed(dir: &Path, roller: &RollSpec) -> Vec<(String, Vec<u8>)> {
 
 /// The stream oracle on a directory state: whole records; an in-order, duplicate-free subsequence of
 /// the attempted records; gap-free with respect to acknowledged records from its first element on.
-fn check_stream(dir: &Path, roller: &RollSpec, attempted: &[RecId], acked: &[bool], what: &str) -> CaseResult {
-    let (chunks, _) = read_chunks(dir, roller, &dir.join(ACTIVE)).map_err(|f| Failure { sig: "C08:archive-undecodable".into(), msg: format!("{}: {}", what, f.msg) })?;
+fn check_stream(dir: &Path, roller: &RollSpec, active: &Path, attempted: &[RecId], acked: &[bool], what: &str) -> CaseResult {
+    let (chunks, _) = read_chunks(dir, roller, active).map_err(|f| Failure { sig: "C08:archive-undecodable".into(), msg: format!("{}: {}", what, f.msg) })?;
     let mut stream: Vec<RecId> = vec![];
     for (i, c) in chunks.iter().enumerate() {
         match parse_stream(c) {
@@ -189,8 +206,14 @@ pub fn execute(tmp: &Path, f: &Faulted, obs: &mut Obs) -> Result<Report, Failure
     let r = execute_in(&dir, &image, f, obs);
     steps::set_step_callback(None);
     clock::set_now(None);
-    let _ = std::fs::remove_dir_all(&dir);
-    let _ = std::fs::remove_dir_all(&image);
+    for d in [&dir, &image] {
+        if f.case.cross_device {
+            if let Some(alt) = other_fs_dir(d) {
+                let _ = std::fs::remove_dir_all(alt);
+            }
+        }
+        let _ = std::fs::remove_dir_all(d);
+    }
     r
 }
 
@@ -202,6 +225,8 @@ fn execute_in(dir: &Path, image: &Path, f: &Faulted, obs: &mut Obs) -> Result<Re
         persist: case.persist,
         dir: dir.to_path_buf(),
         image_dir: image.to_path_buf(),
+        active: active_path(dir, case.cross_device),
+        image_active: active_path(image, case.cross_device),
         steps_per_rotation: count,
         ..Default::default()
     }));
@@ -230,6 +255,12 @@ fn execute_in(dir: &Path, image: &Path, f: &Faulted, obs: &mut Obs) -> Result<Re
                 Some(Fault::Crash { r: fr, s: fs }) => {
                     if r == fr && k == fs && !s.image_taken {
                         copy_tree(&s.dir, &s.image_dir);
+                        if s.active != s.dir.join(ACTIVE) {
+                            // the active file lives on the other filesystem: it belongs to the image as well
+                            if let Ok(b) = std::fs::read(&s.active) {
+                                let _ = std::fs::write(&s.image_active, b);
+                            }
+                        }
                         s.image_taken = true;
                     }
                 }
@@ -243,6 +274,8 @@ fn execute_in(dir: &Path, image: &Path, f: &Faulted, obs: &mut Obs) -> Result<Re
             result
         })));
     }
+    let active = active_path(dir, case.cross_device);
+    let image_active = active_path(image, case.cross_device);
     let mut app = build(dir, case)?;
     let mut now = T0;
     let mut attempted: Vec<RecId> = vec![];
@@ -267,9 +300,33 @@ fn execute_in(dir: &Path, image: &Path, f: &Faulted, obs: &mut Obs) -> Result<Re
                 obstacle_placed = true;
             }
         }
+        if let Fault::DanglingDir { r, off } = &f.fault {
+            let rot = state.lock().unwrap().rotation;
+            let slot = archive_path(dir, &case.roller, *off).unwrap().parent().unwrap().to_path_buf();
+            // the roller creates the slot directories ahead of use: an absent or still empty one is replaced
+            let due = rot == *r && !obstacle_placed && fault_lifted_at.is_none();
+            let replaceable = due
+                && match std::fs::symlink_metadata(&slot) {
+                    Err(_) => true,
+                    Ok(m) => m.is_dir() && std::fs::read_dir(&slot).map_or(false, |mut d| d.next().is_none()) && std::fs::remove_dir(&slot).is_ok(),
+                };
+            if due && replaceable {
+                std::fs::create_dir_all(slot.parent().unwrap()).unwrap();
+                std::os::unix::fs::symlink(dir.join("no-such-volume"), &slot).unwrap();
+                obstacle_placed = true;
+            }
+        }
         // an obstacle directory that sits at a *source* name is renamed along by the roller: locate it afresh
-        let obstacle_at: Option<PathBuf> = (0..window_count(&case.roller)).filter_map(|o| archive_path(dir, &case.roller, o)).find(|p| p.join("obstacle/x").exists());
-        let before = managed(dir, &case.roller);
+        let obstacle_at: Option<PathBuf> = (0..window_count(&case.roller))
+            .filter_map(|o| archive_path(dir, &case.roller, o))
+            .find(|p| p.join("obstacle/x").exists())
+            .or_else(|| {
+                (0..window_count(&case.roller))
+                    .filter_map(|o| archive_path(dir, &case.roller, o))
+                    .filter_map(|p| p.parent().map(|x| x.to_path_buf()))
+                    .find(|slot| slot != dir && std::fs::symlink_metadata(slot).map_or(false, |m| m.file_type().is_symlink()))
+            });
+        let before = managed(dir, &case.roller, &active);
         let injected_before = state.lock().unwrap().injected;
         let image_before = state.lock().unwrap().image_taken;
         let id = RecId { tid: 0, seq, len };
@@ -299,14 +356,22 @@ fn execute_in(dir: &Path, image: &Path, f: &Faulted, obs: &mut Obs) -> Result<Re
             *a.last_mut().unwrap() = false;
             crash_attempted = Some((attempted.clone(), a));
         }
-        let after = managed(dir, &case.roller);
+        let after = managed(dir, &case.roller, &active);
+        if std::env::var_os("LV_DEBUG").is_some() {
+            eprintln!("[c08] {} ok={} obstacle={:?} before={:?} after={:?}", what, ok, obstacle_at, before.iter().map(|(n, c)| (n.clone(), c.len())).collect::<Vec<_>>(), after.iter().map(|(n, c)| (n.clone(), c.len())).collect::<Vec<_>>());
+        }
         check_retained(&before, &after, &case.roller, &what)?;
-        check_stream(dir, &case.roller, &attempted, &acked, &what)?;
+        check_stream(dir, &case.roller, &active, &attempted, &acked, &what)?;
         if obstacle_at.is_some() && !ok {
             // the obstacle stays for `persist` failed attempts, then it is lifted
             let fails = acked.iter().filter(|a| !**a).count();
             if fails >= case.persist {
-                let _ = std::fs::remove_dir_all(obstacle_at.as_ref().unwrap());
+                let o = obstacle_at.as_ref().unwrap();
+                if std::fs::symlink_metadata(o).map_or(false, |m| m.file_type().is_symlink()) {
+                    let _ = std::fs::remove_file(o);
+                } else {
+                    let _ = std::fs::remove_dir_all(o);
+                }
                 fault_lifted_at = Some(i);
             }
         }
@@ -318,8 +383,8 @@ fn execute_in(dir: &Path, image: &Path, f: &Faulted, obs: &mut Obs) -> Result<Re
             if i > l {
                 ensure!(ok, "C08:no-recovery", "{}: the obstruction is gone but the append still fails", what);
                 if let TrigSpec::Size(limit) = &case.trigger {
-                    let sz = std::fs::metadata(dir.join(ACTIVE)).map(|m| m.len()).unwrap_or(0);
-                    ensure!(sz <= *limit || !dir.join(ACTIVE).exists(), "C08:pending-rotation-not-performed", "{}: active file has {} bytes > limit {} after a successful append following the fault", what, sz, limit);
+                    let sz = std::fs::metadata(&active).map(|m| m.len()).unwrap_or(0);
+                    ensure!(sz <= *limit || !active.exists(), "C08:pending-rotation-not-performed", "{}: active file has {} bytes > limit {} after a successful append following the fault", what, sz, limit);
                 }
             }
         }
@@ -335,9 +400,9 @@ fn execute_in(dir: &Path, image: &Path, f: &Faulted, obs: &mut Obs) -> Result<Re
         let (mut att, mut ack) = crash_attempted.unwrap();
         let what = format!("crash image of {:?}", f.fault);
         // (2) on the image itself
-        check_stream(image, &case.roller, &att, &ack, &what)?;
+        check_stream(image, &case.roller, &image_active, &att, &ack, &what)?;
         // every file of the image parses; now restart
-        let before_restart = managed(image, &case.roller);
+        let before_restart = managed(image, &case.roller, &image_active);
         app = build(image, case)?;
         if !case.append_mode {
             // truncate mode discards the active file's content at open: those records leave the reference
@@ -353,7 +418,7 @@ fn execute_in(dir: &Path, image: &Path, f: &Faulted, obs: &mut Obs) -> Result<Re
         for (i, (len, dt)) in case.continuation.iter().enumerate() {
             now += *dt as i64;
             clock::set_now(Some((now, 0)));
-            let before = managed(image, &case.roller);
+            let before = managed(image, &case.roller, &image_active);
             let text = record_text(0, s2, *len);
             att.push(RecId { tid: 0, seq: s2, len: *len });
             s2 += 1;
@@ -364,9 +429,9 @@ fn execute_in(dir: &Path, image: &Path, f: &Faulted, obs: &mut Obs) -> Result<Re
                 Ok(Ok(())) => ack.push(true),
             }
             obs.sub_evals += 1;
-            let after = managed(image, &case.roller);
+            let after = managed(image, &case.roller, &image_active);
             check_retained(&before, &after, &case.roller, &what)?;
-            check_stream(image, &case.roller, &att, &ack, &what)?;
+            check_stream(image, &case.roller, &image_active, &att, &ack, &what)?;
         }
         drop(app);
     }
@@ -379,7 +444,7 @@ pub fn check_faulted(tmp: &Path, f: &Faulted, obs: &mut Obs) -> CaseResult {
     let count = window_count(&f.case.roller);
     let shift_step = match &f.fault {
         Fault::Error { s, .. } | Fault::Crash { s, .. } => (*s as u32) < count.saturating_sub(1),
-        Fault::Obstacle { off, .. } => *off > 0,
+        Fault::Obstacle { off, .. } | Fault::DanglingDir { off, .. } => *off > 0,
         Fault::None => false,
     };
     let pre = matches!(f.case.trigger, TrigSpec::Scripted(_, true) | TrigSpec::Time(..));
@@ -389,9 +454,11 @@ pub fn check_faulted(tmp: &Path, f: &Faulted, obs: &mut Obs) -> CaseResult {
         Fault::Error { .. } => "fault=injected-error",
         Fault::Crash { .. } => "fault=crash-image",
         Fault::Obstacle { .. } => "fault=obstacle-directory",
+        Fault::DanglingDir { .. } => "fault=dangling-symlink-directory",
     });
     obs.class_if(shift_step, "fault-at-shift-step");
     obs.class_if(!f.case.append_mode, "truncate-mode");
+    obs.class_if(f.case.cross_device && other_fs_dir(tmp).is_some(), "active-file-on-another-filesystem");
     obs.class_if(pre, "pre-process-trigger");
     obs.class(format!("count={}", count));
     obs.class(format!("rotations={}", rep.rotations.min(8)));
@@ -417,6 +484,9 @@ pub fn expand(tmp: &Path, case: &Case) -> Result<Vec<Faulted>, Failure> {
             // rotation r is the first one to use index base+r: an obstacle there fails its first step
             for r in 0..rep.rotations.min(*count as usize) {
                 out.push(Faulted { case: case.clone(), fault: Fault::Obstacle { r, off: r as u32 } });
+                if pattern.contains("{}/") {
+                    out.push(Faulted { case: case.clone(), fault: Fault::DanglingDir { r, off: r as u32 } });
+                }
             }
         }
     }
